@@ -1440,6 +1440,56 @@ def gen_simd_kernels(repo):
         sk = ' ; '.join('%s(%s)' % (c, ' '.join(a.split())) for c, a in calls if not c.endswith('set_epi8'))
         out += '/-- %s: %s: every intrinsic / helper call with its arguments, in textual order -/\n' % (f16h, fn)
         out += 'def u16x1_sse4_%s_skeleton : String := "%s"\n\n' % ('four_rows' if tag else 'one_row', sk.replace('"', '\\"'))
+    # four-channel 16-bit images (U16x4), SSE4.1: masks rg0 / rg1 / ba0 / ba1 of both kernels, call sequences
+    f164 = 'src/convolution/u16x4/sse4.rs'
+    with open(os.path.join(repo, f164)) as fh:
+        src164 = fh.read()
+    for fn, tag in (('horiz_convolution_one_row', ''), ('horiz_convolution_four_rows', 'four_')):
+        m = re.search(r'unsafe fn %s\(.*?\n\}' % fn, src164, re.S)
+        if not m:
+            raise TranslationError("%s: %s not found" % (f164, fn))
+        body = re.sub(r'//[^\n]*', '', m.group(0))
+        body = re.sub(r'/\*.*?\*/', '', body, flags=re.S)
+        masks = []
+        for a in re.finditer(r'let (\w+)_shuffle = _mm_set_epi8\(([^;]*?)\);', body, re.S):
+            vals = [int(x) for x in a.group(2).replace('\n', ' ').split(',') if x.strip()]
+            if len(vals) != 16:
+                raise TranslationError("%s: mask %s does not have 16 entries" % (f164, a.group(1)))
+            masks.append((a.group(1), list(reversed(vals))))
+        if [n for n, _ in masks] != ['rg0', 'rg1', 'ba0', 'ba1']:
+            raise TranslationError("%s: %s: expected the masks rg0, rg1, ba0, ba1, found %s" % (f164, fn, [n for n, _ in masks]))
+        for n, v in masks:
+            out += '/-- %s: %s: shuffle mask %s_shuffle, byte 0 first -/\n' % (f164, fn, n)
+            out += 'def u16x4_sse4_%s%s : List Int := [%s]\n\n' % (tag, n, ', '.join(str(x) if x >= 0 else '(%d)' % x for x in v))
+        calls = re.findall(r'\b(_mm_\w+(?:::<\w+>)?|simd_utils::\w+|chunks_exact|remainder|first|normalizer\.clip|normalizer\.precision)\(([^()]*(?:\([^()]*\)[^()]*)*)\)', body)
+        sk = ' ; '.join('%s(%s)' % (c, ' '.join(a.split())) for c, a in calls if not c.endswith('set_epi8'))
+        out += '/-- %s: %s: every intrinsic / helper call with its arguments, in textual order -/\n' % (f164, fn)
+        out += 'def u16x4_sse4_%s_skeleton : String := "%s"\n\n' % ('four_rows' if tag else 'one_row', sk.replace('"', '\\"'))
+    # two-channel 16-bit images (U16x2), SSE4.1: masks p0 .. p3 of both kernels, call sequences
+    f162 = 'src/convolution/u16x2/sse4.rs'
+    with open(os.path.join(repo, f162)) as fh:
+        src162 = fh.read()
+    for fn, tag in (('horiz_convolution_one_row', ''), ('horiz_convolution_four_rows', 'four_')):
+        m = re.search(r'unsafe fn %s\(.*?\n\}' % fn, src162, re.S)
+        if not m:
+            raise TranslationError("%s: %s not found" % (f162, fn))
+        body = re.sub(r'//[^\n]*', '', m.group(0))
+        body = re.sub(r'/\*.*?\*/', '', body, flags=re.S)
+        masks = []
+        for a in re.finditer(r'let (\w+)_shuffle = _mm_set_epi8\(([^;]*?)\);', body, re.S):
+            vals = [int(x) for x in a.group(2).replace('\n', ' ').split(',') if x.strip()]
+            if len(vals) != 16:
+                raise TranslationError("%s: mask %s does not have 16 entries" % (f162, a.group(1)))
+            masks.append((a.group(1), list(reversed(vals))))
+        if [n for n, _ in masks] != ['p0', 'p1', 'p2', 'p3']:
+            raise TranslationError("%s: %s: expected the masks p0 .. p3, found %s" % (f162, fn, [n for n, _ in masks]))
+        for n, v in masks:
+            out += '/-- %s: %s: shuffle mask %s_shuffle, byte 0 first -/\n' % (f162, fn, n)
+            out += 'def u16x2_sse4_%s%s : List Int := [%s]\n\n' % (tag, n, ', '.join(str(x) if x >= 0 else '(%d)' % x for x in v))
+        calls = re.findall(r'\b(_mm_\w+(?:::<\w+>)?|simd_utils::\w+|chunks_exact|remainder|first|normalizer\.clip|normalizer\.precision)\(([^()]*(?:\([^()]*\)[^()]*)*)\)', body)
+        sk = ' ; '.join('%s(%s)' % (c, ' '.join(a.split())) for c, a in calls if not c.endswith('set_epi8'))
+        out += '/-- %s: %s: every intrinsic / helper call with its arguments, in textual order -/\n' % (f162, fn)
+        out += 'def u16x2_sse4_%s_skeleton : String := "%s"\n\n' % ('four_rows' if tag else 'one_row', sk.replace('"', '\\"'))
     # the vertical pass for 8-bit components (all four u8 pixel types)
     f = 'src/convolution/vertical_u8/sse4.rs'
     with open(os.path.join(repo, f)) as fh:
